@@ -113,7 +113,8 @@ def run_potable(args, text=None, tmpdir=None, hashseed="0", timeout=120, infile_
     os.unlink(outpath)
   argv = [outpath if a == "@OUT" else a for a in argv]
   env = bootstrap.child_env(extra_env, hashseed=hashseed)
-  r = subprocess.run(bootstrap.potable_cmd() + argv, env=env, cwd=tmpdir, capture_output=True, timeout=timeout)
+  r = subprocess.run(bootstrap.potable_cmd() + argv, env=env, cwd=tmpdir, capture_output=True, timeout=timeout,
+                     input=(stdin if isinstance(stdin, bytes) else stdin.encode("utf8")) if stdin is not None else None)
   data = None
   exists = os.path.exists(outpath)
   if exists:
